@@ -245,7 +245,7 @@ def gen_conn(rng):
     for _ in range(400):
         dt = Fr(1, rng.choice([4, 8]))
         ns = rng.randint(1, 3); ncon = rng.choice([1, 2, 2, 3])
-        nts = [rng.randint(1 if ns > 1 else 2, 3) if i < ncon else 0 for i in range(3)]
+        nts = [rng.randint(1, 3) if i < ncon else 0 for i in range(3)]       # incl. the 1 x 1 matrix (fixes D92/D93)
         nodes = [dict(kind="s", cls=0, k=str(rng.randint(1, 3)), x0=str(Fr(rng.randint(1, 6), 2))) for _ in range(ns)]
         nodes += [dict(kind="t", cls=0, k="0", x0=str(Fr(rng.randint(-4, 4), 2))) for _ in range(sum(nts))]
         pp = pairs(dt)
